@@ -431,7 +431,7 @@ func (SignatureProofScheme) ValidateFinalizedProof(
 	}
 
 	k := int(binary.BigEndian.Uint16(mainKeyID[:2]))
-	if k > nKeys {
+	if k == 0 || k > nKeys {
 		// Invalid/corrupted key.
 		return nil, false
 	}
@@ -439,6 +439,14 @@ func (SignatureProofScheme) ValidateFinalizedProof(
 	// Scratch combination index to reuse on every proof we process.
 	var combIndex big.Int
 	combIndex.SetBytes(mainKeyID[2:])
+
+	// The combination index must identify one of the C(nKeys, k) combinations;
+	// anything larger is corrupt and cannot be decoded.
+	var nCombinations big.Int
+	binomialCoefficient(nKeys, k, &nCombinations)
+	if combIndex.Cmp(&nCombinations) >= 0 {
+		return nil, false
+	}
 
 	// The bits indicating which keys in the original set have been used so far.
 	// This value is used throughout the rest loop.
@@ -507,8 +515,13 @@ func (SignatureProofScheme) ValidateFinalizedProof(
 		// First get the reduced key set.
 		reducedKeys, projections = createKeyProjection(proof.Keys, &usedOriginalBits)
 		// Then determine the bit set mapping this combination index into the reduced key set.
-		if k > len(reducedKeys) {
+		if k == 0 || k > len(reducedKeys) {
 			// Corrupt/invalid key ID.
+			return nil, false
+		}
+		binomialCoefficient(len(reducedKeys), k, &nCombinations)
+		if combIndex.Cmp(&nCombinations) >= 0 {
+			// Corrupt/invalid combination index.
 			return nil, false
 		}
 		decodeCombinationIndex(len(reducedKeys), k, &combIndex, &reducedProofBits)
